@@ -115,9 +115,16 @@ def run(ctx):
                    'None edge of the UUID lookup: %d exit(s), all Ok(0): %s; storage-mutating events reachable: %s' % (
                        len(exits), not bad_exits, muts[:3] or 'none'), site=site)
         # ---- POSTFILL
-        clos = [prog.bodies[c] for c in prog.children.get(TRI_RM, []) if c in prog.bodies and
-                any((t.resolved or t.callee) == TR + 'fan_fill_cavity' for _, t in prog.bodies[c].calls())]
-        ctx.floor('fan retriangulation closure', 1, len(clos), cfg)
+        # the body that performs the fan retriangulation: today a closure of Triangulation::remove_vertex; a helper
+        # method would do as well (any library body that calls fan_fill_cavity and from which remove_vertex returns)
+        direct = {(t.resolved or t.callee) for _, t in prog.bodies[TRI_RM].calls()}
+        for c_ in prog.children.get(TRI_RM, []):
+            if c_ in prog.bodies:
+                direct |= {(t.resolved or t.callee) for _, t in prog.bodies[c_].calls()}
+        clos = [b_ for q_, b_ in sorted(prog.bodies.items()) if '::tests::' not in q_ and
+                any((t.resolved or t.callee) == TR + 'fan_fill_cavity' for _, t in b_.calls()) and
+                ((b_.root or q_) == TRI_RM or q_ in direct)]
+        ctx.floor('fan retriangulation body', 1, len(clos), cfg)
         for cb in clos:
             for leaf in POSTFILL:
                 r = gate.must_pass(prog, lv, cb, {leaf}, mode='any')
